@@ -1,0 +1,77 @@
+//! Verification hooks (compiled only with `--cfg tsrun_verif`): deterministic work counters for
+//! the lexer/parser and the VM, with optional armed budgets. Nothing here changes behaviour
+//! unless a harness arms a budget, in which case exceeding it panics with a recognisable payload.
+use std::cell::Cell;
+
+std::thread_local! {
+    static PARSE_WORK: Cell<u64> = const { Cell::new(0) };
+    static PARSE_BUDGET: Cell<u64> = const { Cell::new(0) };
+    static VM_STEPS: Cell<u64> = const { Cell::new(0) };
+    static VM_BUDGET: Cell<u64> = const { Cell::new(0) };
+    static NESTED_RUNS: Cell<u32> = const { Cell::new(0) };
+    static NESTED_MAX: Cell<u32> = const { Cell::new(0) };
+}
+
+pub const PARSE_BUDGET_PAYLOAD: &str = "TSRUN_VERIF_PARSE_BUDGET";
+pub const VM_BUDGET_PAYLOAD: &str = "TSRUN_VERIF_VM_BUDGET";
+
+/// One unit of lexer/parser work (a token produced or consumed).
+#[inline]
+pub fn parse_tick() {
+    let n = PARSE_WORK.with(|c| {
+        c.set(c.get() + 1);
+        c.get()
+    });
+    let b = PARSE_BUDGET.with(|c| c.get());
+    if b != 0 && n > b {
+        PARSE_BUDGET.with(|c| c.set(0));
+        std::panic::panic_any(PARSE_BUDGET_PAYLOAD);
+    }
+}
+
+/// One VM instruction (any VM instance, including runs nested inside natives).
+#[inline]
+pub fn vm_tick() {
+    let n = VM_STEPS.with(|c| {
+        c.set(c.get() + 1);
+        c.get()
+    });
+    let b = VM_BUDGET.with(|c| c.get());
+    if b != 0 && n > b {
+        VM_BUDGET.with(|c| c.set(0));
+        std::panic::panic_any(VM_BUDGET_PAYLOAD);
+    }
+}
+
+pub fn nested_enter() {
+    NESTED_RUNS.with(|c| c.set(c.get() + 1));
+    let d = NESTED_RUNS.with(|c| c.get());
+    NESTED_MAX.with(|c| {
+        if d > c.get() {
+            c.set(d)
+        }
+    });
+}
+
+pub fn nested_exit() {
+    NESTED_RUNS.with(|c| c.set(c.get().saturating_sub(1)));
+}
+
+pub fn parse_work() -> u64 {
+    PARSE_WORK.with(|c| c.get())
+}
+pub fn vm_steps() -> u64 {
+    VM_STEPS.with(|c| c.get())
+}
+pub fn nested_max() -> u32 {
+    NESTED_MAX.with(|c| c.get())
+}
+/// Reset counters; budgets of 0 mean "not armed".
+pub fn reset(parse_budget: u64, vm_budget: u64) {
+    PARSE_WORK.with(|c| c.set(0));
+    PARSE_BUDGET.with(|c| c.set(parse_budget));
+    VM_STEPS.with(|c| c.set(0));
+    VM_BUDGET.with(|c| c.set(vm_budget));
+    NESTED_RUNS.with(|c| c.set(0));
+    NESTED_MAX.with(|c| c.set(0));
+}
